@@ -99,7 +99,7 @@ def far_descs(rng):
     out.append({"call": "move", "ax": list(base)})
     for _ in range(rng.randint(6, 14)):
         i = rng.randint(0, 2)
-        base[i] = round(base[i] + rng.choice([0.01, -0.01, 0.02, 0.05]), 2)
+        base[i] = round(base[i] + rng.choice([0.001, -0.001, 0.002, 0.005, 0.01]), 3)
         ax = [None, None, None]
         ax[i] = base[i]
         out.append({"call": rng.choice(["move", "rapid"]), "ax": ax})
@@ -155,8 +155,8 @@ class P(flow.Plan):
             inputs.append({"exact": True, "descs": descs})
         return traces, inputs, {}
 
-    def _run(self, descs, exact, meta):
-        s = Session(dp=2, exact=exact, with_xf=True)
+    def _run(self, descs, exact, meta, dp=2):
+        s = Session(dp=dp, exact=exact, with_xf=True)
         s.apply({"call": "xf_save"})
         for d in descs:
             if d["call"] == "xf_restore_identity":
@@ -172,14 +172,15 @@ class P(flow.Plan):
         for i in range(n):
             rng = random.Random(sd * 104729 + i)
             exact = i % 2 == 0
-            descs = far_descs(rng) if i % 6 == 0 else random_descs(rng, rng.randint(12, 35), exact)
-            traces.append(self._run(descs, exact, {"driver": "random", "seed": sd * 104729 + i}))
-            inputs.append({"exact": exact, "descs": descs})
+            far = i % 6 == 0
+            descs = far_descs(rng) if far else random_descs(rng, rng.randint(12, 35), exact)
+            traces.append(self._run(descs, exact, {"driver": "random-far" if far else "random", "seed": sd * 104729 + i}, dp=3 if far else 2))
+            inputs.append({"exact": exact, "descs": descs, "dp": 3 if far else 2})
         return traces, inputs
 
     def replay(self, payload):
         inp = payload["input"]
-        return [self._run(inp["descs"], inp["exact"], {"driver": "replay"})], [inp]
+        return [self._run(inp["descs"], inp["exact"], {"driver": "replay"}, dp=inp.get("dp", 2))], [inp]
 
     def controls(self, base):
         descs = [{"call": "xf_rotate", "angle": 90.0, "axis": "z"}, {"call": "xf_translate", "v": [1.0, 0.0, 0.0]},
